@@ -80,6 +80,9 @@ func NewReplayer(h HSpec, tier int) (*Replayer, error) {
 	if pkgName == "" {
 		return nil, fmt.Errorf("no harness file in %s", pkgDir)
 	}
+	// hash applications answer with the model's digests (see harness/auto/crypto_hash_replay.go)
+	replace[filepath.Join(repoDir, "crypto/zz_auto_hash_replay.go")] = filepath.Join(verifDir, "harness/auto/crypto_hash_replay.go")
+	stubTargets["crypto"] = append(stubTargets["crypto"], "ZZStub_Blake3Hash", "ZZStub_Sha256Hash")
 	// rewrite stubbed functions so that the native build uses the same models
 	for d, names := range stubTargets {
 		if err := rewriteStubs(filepath.Join(repoDir, d), names, dir, replace); err != nil {
